@@ -1131,158 +1131,6 @@ def oracle_tabulation(r):
 # ----------------------------------------------------------------------------- known-finding features (README rule 1)
 
 
-def _small_perturbation(x) -> bool:
-    """True if the recipe contains a near-tolerance perturbation parameter (0 < |value| < 1e-4)."""
-    if isinstance(x, dict):
-        for k, v in x.items():
-            if k in ("eps", "e", "tilt") and isinstance(v, (int, float)) and 0 < abs(v) < 1e-4:
-                if k != "eps" or any(x.get("dir") or []):
-                    return True
-            if _small_perturbation(v):
-                return True
-    elif isinstance(x, list):
-        return any(_small_perturbation(v) for v in x)
-    return False
-
-
-def _f_kak_vector_face(sub, r):
-    if sub != "kak_vector":
-        return False
-    _, info = G.build_2q(r["u"])
-    v = info["v"]
-    return 4e-8 < Q - v[0] < 8e-6 and abs(v[2]) > 4e-8
-
-
-def _f_isometry_third_cz(sub, r):
-    if sub != "cz" or r.get("fn") != "iso":
-        return False
-    _, info = G.build_2q(r["u"])
-    v = info["v"]
-    return R.cz_class(v, float(r.get("atol", 1e-8)) / 100) == 3 and R.shende_count(v, 1e-7) < 3
-
-
-def _eigphase_spread(a, b):
-    """(max |eigenphase|, smallest non-zero eigenvalue gap) of a @ b^dagger."""
-    ev = np.linalg.eigvals(a @ b.conj().T)
-    ph = np.abs(np.angle(ev))
-    gaps = [abs(ev[i] - ev[j]) for i in range(len(ev)) for j in range(i)]
-    return float(np.max(ph)), gaps
-
-
-def _cs_pairs(u):
-    from scipy.linalg import cossin  # same third-party factorisation the routine starts from
-
-    h = u.shape[0] // 2
-    (u1, u2), _, (v1, v2) = cossin(u, h, h, separate=True)
-    flip = np.diag(np.concatenate((np.ones(h // 2), -np.ones(h // 2))))  # Z on the next wire (QSD A.1 merge)
-    alt = np.diag([1, -1] * (h // 2))  # Z on the last wire (three-qubit A.1 merge)
-    return [(u1, u2), (u1, u2 @ flip), (u1, u2 @ alt), (v1, v2)]
-
-
-def _f_three_qubit_small_angles(sub, r):
-    """The middle multiplexor of one of the two demultiplexing steps has all angles in (1e-8, 5e-5)."""
-    if sub != "threeq":
-        return False
-    for a, b in _cs_pairs(G.build_nq(r["u"])):
-        m, _ = _eigphase_spread(a, b)
-        if 1e-8 < m < 5e-5:
-            return True
-    return False
-
-
-def _f_qsd_near_degenerate(sub, r):
-    """u1 @ u2^dagger of a demultiplexing step has two eigenvalues 5e-10 .. 2e-7 apart (top level computed from the
-    matrix; for n = 4 the deeper levels are not predictable from the input, there any near-tolerance parameter counts)."""
-    if sub != "qsd" or int(r.get("n", 0)) < 3:
-        return False
-    if int(r["n"]) == 4 and _small_perturbation(r.get("u")):
-        return True
-    for a, b in _cs_pairs(G.build_nq(r["u"])):
-        _, gaps = _eigphase_spread(a, b)
-        if any(5e-10 < g < 2e-7 for g in gaps):
-            return True
-        h = a @ b.conj().T
-        if np.allclose(h, h.conj().T) and np.max(np.abs(h - h.conj().T)) > 1e-9:  # eigh of a not-quite-Hermitian product
-            return True
-    return False
-
-
-def _f_qsd_first_block_single_qubit(sub, r):
-    """The first generic two-qubit block of the recursion (after absorbing the diagonals extracted from the later
-    blocks, exactly as the routine chains them) synthesises to operations that touch fewer than two qubits."""
-    if sub != "qsd" or int(r.get("n", 0)) < 2:
-        return False
-    import sys
-
-    qsd = sys.modules["cirq.transformers.analytical_decompositions.quantum_shannon_decomposition"]
-    n = int(r["n"])
-    u = G.build_nq(r["u"])
-    qs = _qs(n)
-    try:
-        mats = [cirq.unitary(o) for o in qsd._recursive_decomposition(qs, u) if isinstance(o.gate, cirq.MatrixGate)]
-        for i in range(len(mats) - 1, 0, -1):
-            dg, _ = cirq.two_qubit_matrix_to_diagonal_and_cz_operations(qs[-2], qs[-1], mats[i], allow_partial_czs=True,
-                                                                       clean_operations=True, atol=1e-8)
-            mats[i - 1] = dg @ mats[i - 1]
-        ops0 = cirq.two_qubit_matrix_to_cz_operations(qs[-2], qs[-1], mats[0], allow_partial_czs=True, clean_operations=True, atol=1e-8)
-    except (ValueError, ArithmeticError):  # the other QSD finding (non-unitary eigenvector block) aborts the recursion
-        return False
-    return len({q for op in ops0 for q in op.qubits}) < 2
-
-
-def _rz(t):
-    return np.diag([np.exp(-0.5j * t), np.exp(0.5j * t)])
-
-
-def _ry(t):
-    return np.array([[math.cos(t / 2), -math.sin(t / 2)], [math.sin(t / 2), math.cos(t / 2)]], dtype=complex)
-
-
-def _abc(m):
-    """A, B, C, delta of Barenco et al. ch. 4 (A X B X C e^{i delta} = m, A B C = 1), own arithmetic."""
-    delta = np.angle(np.linalg.det(m)) * 0.5
-    alpha = np.angle(m[0, 0]) + np.angle(m[0, 1]) - 2 * delta
-    beta = np.angle(m[0, 0]) - np.angle(m[0, 1])
-    a00 = min(1.0, abs(m[0, 0]))
-    theta = 2 * math.acos(1.0 if abs(a00 - 1) < 1e-9 else a00)
-    return _rz(-alpha) @ _ry(-theta / 2), _ry(theta / 2) @ _rz((alpha + beta) / 2), _rz((alpha - beta) / 2), delta
-
-
-def _power(m, p):
-    ev, vec = np.linalg.eig(m)
-    if abs(ev[0] - ev[1]) < 1e-12:
-        return np.eye(2) * ev[0] ** p
-    return vec @ np.diag(ev ** p) @ np.linalg.inv(vec)
-
-
-def _f_mc_rotation_small(sub, r):
-    """One of the elementary gates of a singly-controlled step (Z^(delta/pi), C, B, A) is np.allclose-equal to the
-    identity (rtol 1e-5) without being the identity to 2e-8: the routine silently drops it."""
-    if sub != "multi_controlled" or r.get("fn") != "rot":
-        return False
-    m_ctl = int(r.get("m", 0))
-    base = G.build_1q(r["u"])
-    if r.get("su"):
-        base = R.polar_unitary(G.su2(base))
-    if m_ctl == 0:
-        return False
-    if m_ctl == 1:
-        fed = [base]
-    elif abs(np.linalg.det(base) - 1) < 1e-6:
-        a, b, c, _ = _abc(base)
-        fed = [c, b, a]
-    else:
-        fed = [_power(base, sg * 0.5 ** (k + 1)) for k in range(m_ctl - 1) for sg in (1, -1)] + [_power(base, 0.5 ** (m_ctl - 1))]
-    for m in fed:
-        if abs(abs(m[0, 0]) - 1) < 1e-9 and abs(m[0, 1]) > 2e-8:  # |m00| snapped to 1: the off-diagonal part is lost
-            return True
-        a, b, c, delta = _abc(m)
-        for g in (np.diag([1, np.exp(1j * delta)]), c, b, a):
-            if np.allclose(g, np.eye(2)) and np.max(np.abs(g - np.eye(2))) > 2e-8:
-                return True
-    return False
-
-
 def _f_fsim4_face_threshold(sub, r):
     """Canonical x sits (to rounding) on pi/4 - 1e-9, kak_canonicalize_vector's own face threshold, with z != 0."""
     if sub != "fsim4":
@@ -1290,13 +1138,6 @@ def _f_fsim4_face_threshold(sub, r):
     _, info = G.build_2q(r["u"])
     v = info["v"]
     return abs((Q - v[0]) - 1e-9) < 2e-11 and abs(v[2]) > 1e-7
-
-
-def _f_state_prep_near_product(sub, r):
-    if sub != "state_prep":
-        return False
-    sv = np.linalg.svd(G.build_state2(r["s"]).reshape(2, 2), compute_uv=False)
-    return bool(np.isclose(sv[0], 1) and sv[1] > 1e-7)
 
 
 def _f_kak_rank_threshold(sub, r):
@@ -1329,16 +1170,53 @@ def _f_fsim4_drops_small_z(sub, r):
 
 KNOWN_FEATURES = {
     "C15_kak_rank_threshold": _f_kak_rank_threshold,
-    "C15_fsim4_drops_small_z": _f_fsim4_drops_small_z,
-    "C15_kak_vector_face_rtol": _f_kak_vector_face,
-    "C15_isometry_third_cz": _f_isometry_third_cz,
-    "C15_three_qubit_allclose_rtol": _f_three_qubit_small_angles,
-    "C15_qsd_near_degenerate": _f_qsd_near_degenerate,
-    "C15_qsd_phase_fix_single_qubit_block": _f_qsd_first_block_single_qubit,
-    "C15_mc_rotation_drops_small_gates": _f_mc_rotation_small,
-    "C15_state_prep_isclose_product": _f_state_prep_near_product,
     "C15_fsim4_face_threshold": _f_fsim4_face_threshold,
+    "C15_fsim4_drops_small_z": _f_fsim4_drops_small_z,
 }
+
+# regression inputs of defects found by this check and repaired in /repo (fix: commits f29c081 632d107 92fe2d5 d845bb0
+# 633a791 d35532d 39ad951); always evaluated first
+REGRESSION = {
+    "kak_vector": [
+        # C15_kak_vector_face_rtol
+        {"u": {"k": "kak", "base": "face_x", "eps": 1e-07, "dir": [-1, 0, 0], "loc": [], "ph": 0.0}},
+    ],
+    "cz": [
+        # C15_isometry_third_cz
+        {"u": {"k": "kak", "base": "yz0", "eps": 1e-05, "dir": [0, 1, 1], "loc": [], "ph": 0.0}, "fn": "iso", "partial": False, "clean": True, "atol": 1e-08, "swapq": False},
+    ],
+    "threeq": [
+        # C15_three_qubit_allclose_rtol
+        {"u": {"k": "diag", "n": 3, "phs": [0.0, 0.0, 0.0, 0.0, 1e-05, 1e-05, 1e-05, 1e-05]}, "order": [0, 1, 2]},
+        # C15_three_qubit_allclose_rtol (first sighting)
+        {"order": [1, 0, 2], "u": {"f": [{"ang": 9.42477796076938, "axis": [-1], "e": 0.0, "k": "rot", "ph": 0.0, "tilt": 1e-05}], "g": {"base": "interior", "dir": [], "eps": 0.0, "k": "kak", "loc": [], "ph": 0.0, "u": []}, "k": "kron2", "n": 3, "pos": 1}},
+    ],
+    "qsd": [
+        # C15_qsd_near_degenerate
+        {"n": 3, "u": {"k": "block", "n": 3, "a": {"k": "named", "name": "I4", "ph": 0.0}, "b": {"k": "block", "a": {"k": "rot", "axis": [1, 0, 0], "ang": 0.0, "e": 1e-09, "tilt": 0.0, "ph": 0.0}, "b": {"k": "named", "name": "Y", "ph": 0.5}, "ctl": 0, "first_id": False}}},
+        # C15_qsd_phase_fix_single_qubit_block
+        {"n": 2, "u": {"k": "kron", "a": {"k": "named", "name": "X", "ph": 0.0}, "b": {"k": "named", "name": "I", "ph": 0.0}}},
+        # C15_qsd_near_degenerate (eigh shortcut)
+        {"n": 3, "u": {"f": [{"k": "qr", "ph": 1.0, "v": [4.294618220922838e-208, 0.0, -0.16467665692137357, -0.3740603869909148, 2.2250738585072014e-308, 0.44650378384076217, -1.192092896e-07]}, {"ang": 0.7853981633974483, "axis": [], "e": 0.0, "k": "rot", "ph": -2.99576307497489, "tilt": 1e-05}], "k": "kron1", "n": 3}},
+        # C15_qsd_near_degenerate (non-unitary block amplified)
+        {"n": 3, "u": {"k": "ctrl", "n": 3, "sub": {"base": "I", "dir": [0, 1], "eps": 1e-07, "k": "kak", "loc": [{"ang": 1.0, "axis": [1], "e": 0.0, "k": "rot", "ph": 0.0, "tilt": 0.0}, {"ang": 2.0, "axis": [], "e": 1e-05, "k": "rot", "ph": -1.5707963267948966, "tilt": 0.0}, {"ang": 0.0031868597369656415, "axis": [0, 1], "e": 0.0, "k": "rot", "ph": -1.5707963267948966, "tilt": 0.0}], "ph": 0.0}, "val": 1, "wire": 1}},
+        # C15_qsd_phase_fix_single_qubit_block (silent wrong phase)
+        {"n": 3, "u": {"f": [{"k": "qr", "ph": 0.0, "v": [0.0, 0.0, -0.2, 0.0, 0.0, 1.0]}], "k": "kron1", "n": 3}},
+        # paper bound exceeded before 39ad951
+        {"n": 3, "u": {"f": [{"k": "qr", "ph": 0.0, "v": [0.0, 0.0, 0.5, -0.3740603869909148, 2.2250738585072014e-308, 0.45, -1.192092896e-07]}, {"ang": 0.7853981633974483, "axis": [], "e": 0.0, "k": "rot", "ph": -2.99576307497489, "tilt": 1e-05}], "k": "kron1", "n": 3}},
+    ],
+    "multi_controlled": [
+        # C15_mc_rotation_drops_small_gates
+        {"fn": "rot", "m": 1, "free": 0, "names": [0, 1], "su": False, "real": False, "u": {"k": "rot", "axis": [0, 0, 1], "ang": 0.0, "e": 1e-05, "tilt": 0.0, "ph": 0.0}},
+        # C15_mc_rotation_drops_small_gates (|m00| snapped to 1)
+        {"fn": "rot", "free": 0, "m": 1, "names": [0, 1], "real": False, "su": False, "u": {"k": "qr", "ph": 0.0, "v": [0.25, 0.30126712394095123, -9.897403760495584e-08]}},
+    ],
+    "state_prep": [
+        # C15_state_prep_isclose_product
+        {"s": {"k": "near_product", "a": {"k": "named", "name": "I", "ph": 0.0}, "b": {"k": "named", "name": "I", "ph": 0.0}, "eps": 0.001}, "fn": "cz", "inv": False},
+    ],
+}
+
 
 def uncovered():
     return [
@@ -1357,12 +1235,12 @@ _u1 = st.fixed_dictionaries({"u": G.oneq(), "atol": st.sampled_from([0.0] + ONEQ
 
 SUBCHECKS = [
     SubCheck("kak", _u2k, oracle_kak, quick=3000, thorough=100000, shards_quick=4, essential={"special": 0.5}),
-    SubCheck("kak_vector", _u2, oracle_kak_vector, quick=2000, thorough=60000, shards_quick=2, essential={"special": 0.5}),
+    SubCheck("kak_vector", _u2, oracle_kak_vector, quick=2000, thorough=60000, shards_quick=4, essential={"special": 0.5}),
     SubCheck("oneq", _u1, oracle_oneq, quick=2000, thorough=60000, shards_quick=2, essential={"special": 0.5}),
-    SubCheck("linalg", _linalg_case(), oracle_linalg, quick=2000, thorough=60000, shards_quick=2),
+    SubCheck("linalg", _linalg_case(), oracle_linalg, quick=2000, thorough=60000, shards_quick=4),
     SubCheck("cz", _cz_case(), oracle_cz, quick=3000, thorough=80000, shards_quick=6, essential={"special": 0.5}),
     SubCheck("sqrt_iswap", _sqisw_case(), oracle_sqrt_iswap, quick=2500, thorough=80000, shards_quick=4, essential={"special": 0.5}),
-    SubCheck("fsim4", _fsim_case(), oracle_fsim4, quick=800, thorough=30000, shards_quick=2, essential={"special": 0.5}),
+    SubCheck("fsim4", _fsim_case(), oracle_fsim4, quick=800, thorough=30000, shards_quick=4, essential={"special": 0.5}),
     SubCheck("cphase_fsim", _cphase_case(), oracle_cphase, quick=1500, thorough=40000, shards_quick=1),
     SubCheck("threeq", _threeq_case(), oracle_threeq, quick=500, thorough=15000, shards_quick=4, essential={"special": 0.5}),
     SubCheck("qsd", _qsd_case(), oracle_qsd, quick=500, thorough=15000, shards_quick=6, essential={"special": 0.5}),
@@ -1372,3 +1250,5 @@ SUBCHECKS = [
     SubCheck("sycamore", _syc_case(), oracle_sycamore, quick=1200, thorough=30000, shards_quick=4),
     SubCheck("tabulation", _tab_case(), oracle_tabulation, quick=0, thorough=24, shards_quick=1, shards_thorough=8),
 ]
+for _s in SUBCHECKS:
+    _s.examples = list(REGRESSION.get(_s.name, []))
